@@ -10,6 +10,7 @@ PARTS = {
     "stream.main": (stream.run_stream, stream.replay),
     "codec.footprint": (codec.run_footprint, codec.replay_footprint),
     "pipe.random": (pipe.run_random, pipe.replay),
+    "pipe.design": (pipe.run_design, pipe.replay),
     "readn.main": (readn.run_readn, readn.replay),
     "tlv.main": (tlv.run_tlv, tlv.replay),
     "vt.main": (vt.run_vt, vt.replay),
@@ -33,10 +34,10 @@ PROPERTY_PARTS = {
     "C18": ["atomic.main"],
     "C11": ["tlv.main"],
     "C12": ["tlv.main"],
-    "C03": ["pipe.random"],
-    "C04": ["pipe.random"],
-    "C05": ["pipe.random", "codec.small", "codec.prod"],
-    "C20": ["pipe.random"],
-    "C10": ["pipe.random", "codec.footprint", "codec.small", "codec.prod", "stream.main"],
+    "C03": ["pipe.design", "pipe.random"],
+    "C04": ["pipe.design", "pipe.random"],
+    "C05": ["pipe.design", "pipe.random", "codec.small", "codec.prod"],
+    "C20": ["pipe.design", "pipe.random"],
+    "C10": ["pipe.design", "pipe.random", "codec.footprint", "codec.small", "codec.prod", "stream.main"],
     "C06": ["stream.main"],
 }
